@@ -54,6 +54,71 @@ KNOWN_INPUTS = [
 ]
 
 
+# Deterministic part of the sample (bag grid, Tn >= Tc rows, strong-supercooling rows, fixed
+# two-step row) whose answer on the recorded clean tree is an interior velocity.  A point of
+# this list answering with a sentinel or an exception is a failing input of its own (key
+# grid-outcome:<input>), whatever class key the symptom would otherwise take: no cap needed.
+GRID_INTERIOR = {
+    "bag:Tn=0.5,psi=0.2",
+    "bag:Tn=0.5,psi=0.4",
+    "bag:Tn=0.5,psi=0.5",
+    "bag:Tn=0.5,psi=0.6",
+    "bag:Tn=0.5,psi=0.7",
+    "bag:Tn=0.5,psi=0.8",
+    "bag:Tn=0.6,psi=0.2",
+    "bag:Tn=0.6,psi=0.4",
+    "bag:Tn=0.6,psi=0.5",
+    "bag:Tn=0.6,psi=0.6",
+    "bag:Tn=0.6,psi=0.7",
+    "bag:Tn=0.6,psi=0.8",
+    "bag:Tn=0.7,psi=0.2",
+    "bag:Tn=0.7,psi=0.4",
+    "bag:Tn=0.7,psi=0.5",
+    "bag:Tn=0.7,psi=0.6",
+    "bag:Tn=0.7,psi=0.7",
+    "bag:Tn=0.7,psi=0.8",
+    "bag:Tn=0.8,psi=0.2",
+    "bag:Tn=0.8,psi=0.4",
+    "bag:Tn=0.8,psi=0.5",
+    "bag:Tn=0.8,psi=0.6",
+    "bag:Tn=0.8,psi=0.7",
+    "bag:Tn=0.8,psi=0.8",
+    "bag:Tn=0.8,psi=0.9",
+    "bag:Tn=0.88,psi=0.58",
+    "bag:Tn=0.88,psi=0.62",
+    "bag:Tn=0.9,psi=0.2",
+    "bag:Tn=0.9,psi=0.4",
+    "bag:Tn=0.9,psi=0.5",
+    "bag:Tn=0.9,psi=0.6",
+    "bag:Tn=0.9,psi=0.7",
+    "bag:Tn=0.9,psi=0.8",
+    "bag:Tn=0.9,psi=0.9",
+    "bag:Tn=0.9,psi=0.95",
+    "bag:Tn=0.92,psi=0.65",
+    "bag:Tn=0.95,psi=0.2",
+    "bag:Tn=0.95,psi=0.4",
+    "bag:Tn=0.95,psi=0.5",
+    "bag:Tn=0.95,psi=0.6",
+    "bag:Tn=0.95,psi=0.7",
+    "bag:Tn=0.95,psi=0.8",
+    "bag:Tn=0.95,psi=0.9",
+    "bag:Tn=0.95,psi=0.95",
+    "twostep:Tn=0.9,ab=0.2,asy=0.1,musq=0.4",
+    "twostep:Tn=0.95,ab=0.2,asy=0.1,musq=0.4",
+}
+
+
+CLASS_NO_BRACKET = "lte-runaway-without-shock-bracket"
+CLASS_RAISES_AT_VJ = "lte-raises-at-first-matching"
+CLASS_CB_GT_CS = "lte-no-matching-at-vwLTE-cb-above-cs"
+KNOWN_INPUTS_OTHER = [
+    dict(kind="template", psiN=0.9347, alN=0.01051, cs2=0.2357, cb2=0.2815, Tn=173.2),
+    dict(kind="template", psiN=0.9226, alN=0.03241, cs2=0.2752, cb2=0.3232, Tn=100.0),
+    dict(kind="twostep", ab=0.235, asy=0.145, musq=0.458, Tn=0.416),
+    dict(kind="template", psiN=0.7055, alN=1.75637, cs2=0.2791, cb2=0.2013, Tn=100.0),
+]
+
+
 def gam(v):
     return 1.0 / math.sqrt(1.0 - v * v)
 
@@ -669,10 +734,22 @@ def build_with_history(spec, rtol, atol, later_Tn):
     th, hy = S.make_hydro(spec, rtol, atol)
     th.Tnucl = later_Tn
     try:
-        WallGo.Hydrodynamics(th, 10.0, 0.01, rtol, atol)
+        SECOND_SOLVER[0] = (th, WallGo.Hydrodynamics(th, 10.0, 0.01, rtol, atol))
     except Exception:
-        pass
+        SECOND_SOLVER[0] = None
     return th, hy
+
+
+SECOND_SOLVER = [None]
+
+
+def no_bracket_class(events):
+    """recorded mechanism of CLASS_NO_BRACKET: the first matching (at vJ - 1e-10) did not
+    converge, its garbage put the shock front behind the wall (shock > 0), root_scalar(shock)
+    found no bracket and `except ValueError: return 1` answered -- nothing else was evaluated"""
+    ev = [e for e in events if e[0] in ("match", "root")]
+    return len(ev) == 2 and ev[0][0] == "match" and ev[0][4] is False and \
+        ev[1][0] == "root" and ev[1][1] == "shock" and ev[1][3] is None
 
 
 def check_lte(ctx, spec, rtol=1e-6, atol=1e-10, gated=True, later_Tn=None, tmax=10.0,
@@ -740,6 +817,11 @@ def check_lte(ctx, spec, rtol=1e-6, atol=1e-10, gated=True, later_Tn=None, tmax=
         key = "raises:" + sid
         if E is not None and E > MARGIN_E and crude_guess_class(hy, lr.aux, judge):
             key = CLASS_KEY
+        elif len(lr.aux) == 1 and lr.aux[0]["raised"] and \
+                abs(lr.aux[0]["vw"] - (hy.vJ - 1e-10)) <= 1e-12 and E is not None and E > 0:
+            # recorded mechanism: the very first matching, at vJ - 1e-10, has no real v+
+            # (runaway regime: mismatch positive) and the NaN guard of matchDeflagOrHyb raises
+            key = CLASS_RAISES_AT_VJ
         fails.append(("findvwLTE raised %s (mismatch %s at vw=%.6f); %s" % (
             repr(lr.exc)[:160], "n/a" if E is None else "%+.3e" % E, judge.lo, spec),
             dict(kind="raise", **case), key))
@@ -783,16 +865,33 @@ def check_lte(ctx, spec, rtol=1e-6, atol=1e-10, gated=True, later_Tn=None, tmax=
         except RuntimeError as ex:
             fails.append(("vwLTE=%.8f: no shock front ahead of the returned matching (%s); %s"
                           % (res, ex, spec), d, "no-front"))
+        # hypothesis of lte_interior_reaches_Tn, measured: the code's own shooting function
+        try:
+            dres = abs(lte_residual(hy, res))
+            worst("shooting_function_at_result", dres, case)
+            if dres > TOL_TN:
+                fails.append(("vwLTE=%.8f: the code's own shockTnuclDiff/Tn there is %.3e; %s" % (
+                    res, dres, spec), d, "lte-root-contract:" + spec["kind"]))
+        except Exception:
+            pass
         # the matching that findMatching produces at this velocity conserves entropy
         E = mismatch(hy, res, judge)
         if E is None:
+            e_ = judge.eos
+            cb_gt_cs = float(e_.csqLowT(Tn)) > float(e_.csqHighT(Tn)) and spec["kind"] == \
+                "template"
             fails.append(("vwLTE=%.8f: findMatching has no valid matching at the returned "
-                          "velocity; %s" % (res, spec), d, "lte-findMatching"))
+                          "velocity%s; %s" % (res, " [cb^2 > cs^2]" if cb_gt_cs else "", spec), d,
+                          CLASS_CB_GT_CS if cb_gt_cs else "lte-findMatching:" + sid))
         else:
             worst("entropy_of_findMatching", abs(E), case)
             if abs(E) > TOL_ENT_SHOOT:
                 fails.append(("vwLTE=%.8f: findMatching there has T+g+/(T-g-)-1 = %.3e; %s" % (
                     res, E, spec), d, "entropy-findMatching:" + spec["kind"]))
+        if judge.lo < res < judge.hi:
+            pts = [judge.lo + (res - judge.lo) * x for x in (0.0, 0.4, 0.8)] + \
+                [res + (judge.hi - res) * x for x in (0.2, 0.6, 1.0)]
+            BRIDGE.append((spec, hy, judge, [(v, mismatch(hy, v, judge)) for v in pts]))
         if not (judge.vMin - 1e-4 <= res <= judge.vJ + 1e-5):
             fails.append(("vwLTE=%.8f outside the independent window [vMin, vJ] = [%.6f, %.6f]"
                           "; %s" % (res, judge.vMin, judge.vJ, spec), d, "lte-outside-window"))
@@ -817,7 +916,8 @@ def check_lte(ctx, spec, rtol=1e-6, atol=1e-10, gated=True, later_Tn=None, tmax=
                     "the window: T+g+/(T-g-)-1 = %+.3e at vw=%.6f (%d of %d scanned velocities "
                     "negative; %+.3e at vw=%.4f); %s" % (e, v, len(neg), len(vals), vals[0][1],
                                                          vals[0][0], spec),
-                    dict(kind="runaway", vw=v, **case), "runaway-sign:" + sid))
+                    dict(kind="runaway", vw=v, **case),
+                    CLASS_NO_BRACKET if no_bracket_class(events) else "runaway-sign:" + sid))
             BRIDGE.append((spec, hy, judge, vals))
     elif res == 0:
         lo = judge.lo
@@ -854,10 +954,10 @@ def check_sign_bridge(ctx):
     """Hypothesis of Model/FindVwLTE.v lte_sentinel_bridge, validated: the shock-temperature
     difference of the entropy-conserving matching (what the code tests) and the entropy
     mismatch of the Tn-reaching matching (what the property speaks about) have the same sign."""
-    for spec, hy, judge, vals in BRIDGE[:ctx.n(12, 80)]:
+    for spec, hy, judge, vals in BRIDGE[::max(1, len(BRIDGE) // ctx.n(24, 120))]:
         pts = vals[::max(1, len(vals) // 6)][:6]
         for v, E in pts:
-            if abs(E) < 10 * MARGIN_E:
+            if E is None or abs(E) < 10 * MARGIN_E:
                 continue
             try:
                 d = lte_residual(hy, v)
@@ -1038,10 +1138,29 @@ def manager_history(ctx):
                            key="manager-history")
 
 
+OTHER_CLASS_HITS = []
+MAX_OTHER_CLASS_HITS = (4, 16)      # quick, thorough: observed 0-2 / 6-12 on the clean tree
+
+
+def grid_outcome(ctx, spec, fails, mc):
+    sid = "%s:%s" % (spec["kind"], spec_id(spec))
+    if sid not in GRID_INTERIOR:
+        return
+    ctx.count("grid_point_with_recorded_interior_answer")
+    res = mc[2] if mc is not None else None
+    if res is None or not 0 < res < 1:
+        ctx.fail_input("findvwLTE %s for %s, a point of the fixed grid whose recorded answer is "
+                       "an interior velocity" % ("raised / was not judged" if res is None else
+                                                 "returned the sentinel %g" % res, spec),
+                       dict(kind="grid", spec=spec, rtol=1e-6, atol=1e-10),
+                       key="grid-outcome:" + sid)
+
+
 def direct(ctx, proved):
     WORST.clear()
     del UNJUDGED[:]
     del BRIDGE[:]
+    del OTHER_CLASS_HITS[:]
     sp = specs(ctx)
     terms, meta = [], []
     for spec, rtol, atol in KNOWN_INPUTS:
@@ -1056,6 +1175,17 @@ def direct(ctx, proved):
                   bucket="still failing" if fails else "passes now")
         for what, rep, key in fails:
             ctx.fail_input(what, rep, key=key)
+    for spec in KNOWN_INPUTS_OTHER:
+        try:
+            fails, _mc = check_lte(ctx, spec)
+        except Exception as ex:
+            ctx.fail_input("harness/implementation raised %r for %s" % (ex, spec),
+                           dict(kind="raise", spec=spec), key="raises:" + spec["kind"])
+            continue
+        ctx.count("known_input_replayed", dict(spec=spec),
+                  bucket="still failing" if fails else "passes now")
+        for what, rep, key in fails:
+            ctx.fail_input(what, rep, key=key)
     for n, spec in enumerate(sp):
         try:
             fails, mc = check_lte(ctx, spec)
@@ -1065,7 +1195,11 @@ def direct(ctx, proved):
                            key="raises:" + spec["kind"])
             continue
         for what, rep, key in fails:
+            if key == CLASS_KEY:
+                OTHER_CLASS_HITS.append(spec)
+                ctx.log("attributed to %s (not a recorded input): %s" % (CLASS_KEY, spec))
             ctx.fail_input(what, rep, key=key)
+        grid_outcome(ctx, spec, fails, mc)
         if mc is not None:
             term, why, res, case = mc
             if term is None:
@@ -1100,6 +1234,35 @@ def direct(ctx, proved):
         if mc is not None and mc[0] is not None:
             terms.append(mc[0])
             meta.append((mc[2], mc[3]))
+        # ... and the SECOND solver, built on the re-used model object, is as good as one
+        # built on a fresh model at that temperature
+        second = SECOND_SOLVER[0]
+        if second is not None and spec["kind"] in ("bag", "twostep"):
+            spec2 = dict(spec, Tn=later)
+            try:
+                th2, hy2 = second
+                th2.Tnucl = later
+                f2, mc2 = check_lte(ctx, spec2, prebuilt=(th2, hy2), tag=":reused-model")
+                try:
+                    fresh = float(S.make_hydro(spec2)[1].findvwLTE())
+                except Exception as ex:
+                    fresh = repr(ex)[:60]
+                got = mc2[2] if mc2 is not None else None
+                if mc2 is not None and got != fresh:
+                    f2.append(("findvwLTE() = %r for a solver built at Tn=%g on a model object "
+                               "that served Tn=%g before, %r on a fresh model; %s" % (
+                                   got, later, spec["Tn"], fresh, spec2),
+                               dict(kind="history", spec=spec2, earlier_Tn=spec["Tn"]),
+                               "reused-model-object"))
+                ctx.count("history_second_solver_on_reused_model", dict(spec=spec2))
+                for what, rep, key in f2:
+                    if key != CLASS_KEY and "reused" not in key:
+                        key += ":reused-model"
+                    ctx.fail_input("[second solver on a model object that served Tn=%g before]"
+                                   " %s" % (spec["Tn"], what), rep, key=key)
+            except Exception as ex:
+                ctx.fail_input("second solver on a re-used model raised %r; %s" % (ex, spec2),
+                               dict(kind="raise", spec=spec2), key="raises:reused-model")
     try:
         manager_history(ctx)
     except Exception as ex:
@@ -1129,7 +1292,11 @@ def direct(ctx, proved):
     for psi in (0.9, 0.95, 0.899):
         for Tn in (0.3, 0.301, 0.32, 0.35, 0.4)[::ctx.n(2, 1)]:
             spec = dict(kind="bag", psi=psi, Tn=Tn)
-            guarded("strong supercooling", spec, lambda: check_lte(ctx, spec), "")
+            def sc():
+                fails, mc = check_lte(ctx, spec)
+                grid_outcome(ctx, spec, fails, mc)
+                return fails, mc
+            guarded("strong supercooling", spec, sc, "")
             ctx.count("family_strong_supercooling", spec)
     # the EOS through the manager (other call path, config defaults)
     for spec in pool[1::ctx.n(12, 6)]:
@@ -1217,6 +1384,15 @@ def direct(ctx, proved):
             WORST[k][1], default=str)[:150]))
     ctx.cov["worst_observed"] = {k: v[0] for k, v in WORST.items()}
     ctx.cov["nspecs"] = len(sp)
+    ctx.cov["class_hits_not_recorded"] = OTHER_CLASS_HITS[:40]
+    cap = ctx.n(*MAX_OTHER_CLASS_HITS)
+    if len(OTHER_CLASS_HITS) > cap:
+        ctx.fail_input("%d sampled inputs besides the %d recorded ones fall into the class %s "
+                       "(at most %d on the unchanged tree), first: %s" % (
+                           len(OTHER_CLASS_HITS), len(KNOWN_INPUTS), CLASS_KEY, cap,
+                           OTHER_CLASS_HITS[0]),
+                       dict(kind="static", spec=OTHER_CLASS_HITS[0], rtol=1e-6, atol=1e-10),
+                       key=CLASS_KEY + ":more-often-than-on-the-clean-tree")
     return [s for s in sp if s["kind"] == "template"]
 
 
